@@ -58,3 +58,8 @@ Theorem C10_failing_connection : forall T K fuel c conn script,
          (filter visible (serve_loop T K fuel c {| rest := b_data conn; last := 0 |} script)).
 Proof. exact failing_connection_prefix. Qed.
 Print Assumptions C10_failing_connection.
+
+(* the hypothesis is satisfiable: a connection that hands out its bytes in reads of 1, 0, 3 and 2 bytes and then fails *)
+Example C10_failing_transport_example :
+  transport_ok {| b_data := [Byte.x42; Byte.x00; Byte.x78; Byte.x01; Byte.x00; Byte.x00]; b_sizes := [1; 0; 3; 2]%N; b_weof := true; b_term := IOE |}.
+Proof. cbn. repeat split; auto with arith. Qed.
